@@ -5,6 +5,7 @@ import Just.Lemmas.Header
 import Just.Lemmas.Items
 import Just.Lemmas.Ast
 import Just.Lemmas.ParserWF
+import Just.Lemmas.FuelExists
 set_option linter.unusedSimpArgs false
 /-
 C10  Formatting preserves meaning and is idempotent.
@@ -185,6 +186,18 @@ theorem format_of_any_file (litLe : String → String → Bool) (hl : Ast.Linear
     ∧ (Ast.parseAst litLe (F + 2) (Ast.printAst items)).map Ast.printAst = some (Ast.printAst items) :=
   have hw := parsed_file_is_wellformed litLe hl fuel ts items h
   ⟨file_roundtrip litLe F items hw hf hlen, file_format_idempotent litLe F items hw hf hlen⟩
+
+/-- … and the fuel bounds can always be met: from some amount on, every fuel works (`Lemmas/FuelExists.lean`). -/
+theorem format_of_any_file_eventually (litLe : String → String → Bool) (hl : Ast.LinearLe litLe) (fuel : Nat) (ts : List Tk)
+    (items : List Ast.Item) (h : Ast.parseAst litLe fuel ts = some items) :
+    ∃ G0, ∀ G, G0 ≤ G →
+      Ast.parseAst litLe G (Ast.printAst items) = some (items.map Ast.Item.forget)
+      ∧ (Ast.parseAst litLe G (Ast.printAst items)).map Ast.printAst = some (Ast.printAst items) := by
+  obtain ⟨a, ha⟩ := Ast.ev_fileFuel items
+  refine ⟨a + 2, fun G hG => ?_⟩
+  obtain ⟨F, rfl⟩ : ∃ F, G = F + 2 := ⟨G - 2, by omega⟩
+  have hb := ha F (by omega)
+  exact format_of_any_file litLe hl fuel ts items h F hb.1 hb.2
 
 /-- the string order is a linear order: the hypothesis of `format_of_any_file` is satisfiable -/
 example : Ast.LinearLe (fun a b => decide (a ≤ b)) :=
